@@ -90,15 +90,29 @@ def gen_spec(rng, *, random_units=True, sl_bias=0.35, rules=None, currents=None,
                 hu = in_unit(rng, 'Angle', h * math.pi / 180, ru)
                 a['helix'] = hu
                 bb['helix'] = list(hu)
+            # an idler: the second gear is the slave of the first mating and the master of a second one
+            # (its mating role is the one declared last; its mate for the contact stress is the gear it drives)
+            cc = None
+            if rng.random() < 0.3:
+                cc = {'type': kind, 'z': rng.randint(10, 80), 'J': J(), **gear_opt(mod)}
+                if kind == 'helical':
+                    cc['helix'] = list(hu)
             # the contact stress of a gear needs its mate's module and elastic modulus (else the
-            # simulation raises ValueError, C09): keep the pair's optional data consistent
-            for x, y in ((a, bb), (bb, a)):
-                if x['module'] is not None and x['fw'] is not None and x['E'] is not None:
-                    if y['module'] is None or y['E'] is None:
-                        x['E'] = None
+            # simulation raises ValueError, C09): keep the optional data consistent
+            pairs = ((a, bb), (bb, a)) if cc is None else ((a, bb), (bb, cc), (cc, bb))
+            for _ in range(2):
+                for x, y in pairs:
+                    if x['module'] is not None and x['fw'] is not None and x['E'] is not None:
+                        if y['module'] is None or y['E'] is None:
+                            x['E'] = None
             ia, ib = add(a), add(bb)
             rels.append(['joint', prev, ia])
             rels.append(['gear', ia, ib, dy(rng, 0.5, 1)])
+            if cc is not None:
+                ic = add(cc)
+                rels.append(['gear', ib, ic, dy(rng, 0.5, 1)])
+                prev = ic
+                continue
             if reuse and rng.random() < reuse and a['module'] is None and bb['module'] is None:
                 # re-declaration before assembly: the former mating slave is now joined rigidly to the
                 # previous element (the pinion drops out of the chain)
@@ -155,7 +169,20 @@ def gen_spec(rng, *, random_units=True, sl_bias=0.35, rules=None, currents=None,
             'init': {'pos': in_unit(rng, 'AngularPosition', dy(rng, -2, 2), ru),
                      'speed': in_unit(rng, 'AngularSpeed', dy(rng, -3, 3), ru)},
             'rules': None, 'ops': []}
+    angle_init(rng, spec['init'])
     return spec
+
+
+def angle_init(rng, ini, p=0.15):
+    """a non-negative initial position may be given as an `Angle` (the non-negative sub-kind of AngularPosition),
+    sometimes created in another unit and re-expressed in place"""
+    if rng.random() < p:
+        # far from zero: the library's Angle + AngularPosition raises ValueError when the sum is negative (the first
+        # time step of a shaft that starts at an Angle and turns backwards) — not what these streams are about
+        ini['pos_kind'] = 'Angle'
+        ini['pos'] = in_unit(rng, 'Angle', dy(rng, 200, 400), True)
+        if rng.random() < 0.5:
+            ini['pos'] = list(ini['pos'][:2]) + [rng.choice([u for u in SI['Angle'] if u != ini['pos'][1]])]
 
 
 def time_qty(rng, kind, si_value, random_units):
